@@ -4,4 +4,4 @@ TIE = "corr:pe"
 TIE_THEOREM = "Relic.Props.C01 (models Relic.Model.PE vs lib/authenticode)"
 UNPROVED = []
 IMPL_PARALLEL = 16
-install(globals(), "C01", ["pe", "e2e", "cab", "ps", "jar", "apk", "xsig"])
+install(globals(), "C01", ["pe", "e2e", "cab", "ps", "jar", "apk", "xsig", "apkv"])
